@@ -30,6 +30,8 @@ NumLists == {VL(<<>>), VL(<<VN(3, 0)>>), VL(<<VN(1, 0), VN(3, 0)>>), VL(<<VN(3, 
              VL(<<VN(1, 0), VN(2, 0), VN(6, 0)>>), VL(<<VN(4, 0), VN(1, 0), VN(1, 0)>>), VL(<<VN(9, 0), VN(1, 0), VN(1, 0), VN(1, 0)>>)}
 StrLists == {VL(<<VS(<<98>>), VS(<<97>>)>>), VL(<<VS(<<97>>), VS(<<97, 97>>), VS(<<>>)>>)}
 BoolLists == {VL(<<>>), VL(<<VB(TRUE)>>), VL(<<VB(TRUE), VB(FALSE)>>), VL(<<VB(TRUE), VNull>>), VL(<<VNull, VB(FALSE)>>), VL(<<VB(TRUE), VB(TRUE)>>), VL(<<VN(1, 0), VB(FALSE)>>), VL(<<VNull>>)}
+L12 == VL(<<VN(1, 0), VN(2, 0)>>)  L123 == VL(<<VN(1, 0), VN(2, 0), VN(3, 0)>>)  L1 == VL(<<VN(1, 0)>>)  L0 == VL(<<>>)
+PrefixLists == {VL(<<L12, L123, L1>>), VL(<<L1, L12, L123, L12>>), VL(<<L123>>), VL(<<L0, L1>>), VL(<<L123, L12, L0>>)}
 Nested == {VL(<<VL(<<VN(1, 0)>>), VL(<<VN(2, 0), VL(<<VN(3, 0)>>)>>)>>), VL(<<VN(1, 0), VL(<<>>)>>), VL(<<VL(<<VL(<<VN(1, 0)>>)>>)>>)}
 Ctxs == {VC(<<>>), VC(<<[n |-> "a", nc |-> <<97>>, v |-> VN(1, 0)]>>), VC(<<[n |-> "a", nc |-> <<97>>, v |-> VNull], [n |-> "b c", nc |-> <<98, 32, 99>>, v |-> VS(<<97>>)]>>)}
 Any1 == {VNull, VN(1, 0), VS(<<97>>), VB(TRUE), VL(<<VN(1, 0)>>)}
@@ -57,7 +59,9 @@ Cases ==
   \cup {C("reverse", <<l>>) : l \in Lists0 \cup Nested \cup Any1}
   \cup {C(f, <<l, x>>) : f \in {"index of", "list contains"}, l \in Lists0, x \in Elem \cup {VN(2, 0 - 0), VB(TRUE)}}
   \cup {C("union", <<a, b>>) : a \in Lists0, b \in {VL(<<>>), VL(<<VN(2, 0), VN(1, 0)>>), VL(<<VS(<<97>>), VNull>>)}} \cup {C("union", <<VL(<<VN(1, 0), VN(1, 0)>>)>>)}
-  \cup {C("distinct values", <<l>>) : l \in Lists0 \cup Nested \cup Any1}
+  \cup {C("distinct values", <<l>>) : l \in Lists0 \cup Nested \cup Any1 \cup PrefixLists}
+  \cup {C(f, <<l, x>>) : f \in {"index of", "list contains"}, l \in PrefixLists, x \in {L12, L1, L0, L123}}
+  \cup {C("union", <<a, b>>) : a \in PrefixLists, b \in {VL(<<L12>>), VL(<<L0, L123>>)}}
   \cup {C("flatten", <<l>>) : l \in Lists0 \cup Nested \cup Any1}
   \cup {C("get value", <<c, key>>) : c \in Ctxs \cup {VNull, VN(1, 0)}, key \in {VS(<<97>>), VS(<<98, 32, 99>>), VS(<<122>>), VNull, VN(1, 0)}} \cup {C("get value", <<VC(<<>>)>>)}
   \cup {C("get entries", <<c>>) : c \in Ctxs \cup {VNull, VL(<<>>)}}
